@@ -4,7 +4,7 @@
    perm_table: one row per vertex, each a permutation of 0..3 (or no table);
    the fuel is the step bound of C04: (message length) x (vertex count). *)
 From DSW Require Import Py Bignum Convert Kmer Graph Coder Spec GraphSpec CoderSpec FastSpec.
-From DSW.Proofs Require Import CoderProofs ComposeProofs.
+From DSW.Proofs Require Import CoderProofs ComposeProofs CorollaryProofs.
 
 (* arbitrary-precision mode: any mixture of out-degrees 1-4, the empty and the all-zero message, with and without a
    check of any length (chk = None exactly when vt_len <= 0) *)
@@ -36,6 +36,14 @@ Theorem C01_roundtrip_fast_any_fuel : forall fuel bits acc v0 sh vt_len s chk, s
   decode s (Z.of_nat (length bits)) acc v0 true chk sh = Ok bits.
 Proof. exact roundtrip_fast. Qed.
 
+(* in particular on every graph returned by graph generation, from every retained start vertex *)
+Theorem C01_on_generated_graphs : forall k t mask V acc v0 sh bits vt_len, (1 <= k)%nat -> 1 <= t ->
+  length mask = Z.to_nat (pow4 k) -> Forall bit mask -> connect_coding_graph k mask t = Ok (V, acc) -> In v0 V ->
+  perm_table sh (nrows acc) -> bits_ok bits ->
+  exists s chk, encode bits acc v0 false vt_len sh (Z.to_nat (Z.of_nat (length bits) * nrows acc)) = Ok (s, chk)
+                /\ decode s (Z.of_nat (length bits)) acc v0 false chk sh = Ok bits.
+Proof. exact roundtrip_on_generated_graph. Qed.
+
 (* non-vacuity: the doctest graph and message, with a table and a check *)
 Definition gc_acc : accessor :=
   [[-1;-1;-1;-1]; [4;-1;-1;7]; [8;-1;-1;11]; [-1;-1;-1;-1]; [-1;1;2;-1]; [-1;-1;-1;-1]; [-1;-1;-1;-1]; [-1;13;14;-1];
@@ -51,3 +59,4 @@ Print Assumptions C01_normal.
 Print Assumptions C01_fast.
 Print Assumptions C01_roundtrip_normal_any_fuel.
 Print Assumptions C01_roundtrip_fast_any_fuel.
+Print Assumptions C01_on_generated_graphs.
